@@ -745,7 +745,11 @@ def check_registrations(case):
             raise Violation("unconnected-converted", f"{what}: '{name}' -> a frame whose centre is linked to nothing gave {arr(victim).tolist()}")
         # (the setter goes to cartesian form and back: the numbers may move by a rounding - exact atomicity
         #  is C15's subject; here the vector must still be the same point under the same labels)
-        if not (np.allclose(arr(victim), before, rtol=1e-12, atol=0.0) and victim.frame.name == name
+        r_ = abs(before[0])
+        v_ = math.sqrt(before[3] ** 2 + (before[0] * before[4] * math.cos(before[2])) ** 2 + (before[0] * before[5]) ** 2)
+        # (a rate that is nearly zero moves by a rounding of the whole velocity: allowances follow the size of the vectors)
+        allow = 1e-11 * np.array([r_, 1.0, 1.0, v_, v_ / r_, v_ / r_]) + 1e-300
+        if not (np.all(np.abs(arr(victim) - before) <= allow) and victim.frame.name == name
                 and victim.form.name == "spherical"):
             raise Violation("refusal-not-atomic", f"{what}: after the refused conversion the state vector is "
                             f"{arr(victim).tolist()} in {victim.frame.name}/{victim.form.name}, it was {before.tolist()} in {name}/spherical")
